@@ -4,7 +4,7 @@
   and, at record level, that recovery from any *durable prefix* of the log is all-or-nothing per
   transaction (C10). The behaviour of fsync/msync themselves is assumed (OS).
 -/
-import NutsProofs.Facts
+import NutsProofs.Pins.Commit
 import NutsProofs.Props.C10
 namespace NutsProofs.C11
 open NutsProofs
